@@ -1862,6 +1862,23 @@ impl Gen {
                 self.hdr("hdr", bo, &hex(&build_msg(bo, 4, 0, 1, 9, &[fstr(1, 'o', "/a"), fstr(2, 's', "a.b"), fstr(3, 's', "M")], &[], None)));
             }
         }
+        // every string-like header field holding a boundary string (empty, a lone separator, one element, ...)
+        let edge = ["", ".", ":", "/", "a", "a.", ".a", "a..b", ":.", ":1", ":a.", "..", "::", "-", "_", "1", "a.1", "\u{e9}", "a.b", "//", "/a/", ":1.5"];
+        for bo in ORDERS {
+            for (code, t) in [(1u8, 'o'), (2, 's'), (3, 's'), (4, 's'), (6, 's'), (7, 's'), (8, 'g')] {
+                for e in edge {
+                    let mut fields = vec![fstr(1, 'o', "/a"), fstr(2, 's', "a.b"), fstr(3, 's', "M")];
+                    fields.retain(|f| f.0 != code);
+                    fields.push(fstr(code, t, e));
+                    self.hdr("hdr", bo, &hex(&build_msg(bo, 4, 0, 1, 9, &fields, &[], None)));
+                    // and in an error message, where ERROR_NAME is the required one
+                    let mut fields = vec![(5, FieldVal::Typed(Ty::Base('u'), Val::Num(3))), fstr(4, 's', "a.b.E")];
+                    fields.retain(|f| f.0 != code);
+                    fields.push(fstr(code, t, e));
+                    self.hdr("hdr", bo, &hex(&build_msg(bo, 3, 0, 1, 9, &fields, &[], None)));
+                }
+            }
+        }
         // every single byte corruption / truncation of the header part
         for (bo, m) in &valid {
             let hdr_end = m.len();
@@ -2332,7 +2349,7 @@ impl<'a> Eval<'a> {
 
 fn rule_text() -> String {
     format!(
-        "inputs: (1) every catalogue type's generated value encoded by an independent encoder + single-byte corruptions (0x00, 0xff, +1, random; all positions (up to 500 per value) for one value of every type in the thorough tier, a random subset of 24-32 otherwise) + truncations; (2) nesting bombs: towers of variants / arrays / structs / dict entries in 13 patterns to depth 10..130 around the limits 32 and 64, the same inside a{{sv}}, in a message body and in an unknown header field, 255-character variant signatures, generated towers of 10^3..10^6 levels (crash-only); (3) declared lengths 2^26, 2^26+1, 2^26+8, 2^31, 2^32-1, 2^32-8, remaining+1, remaining in every length field of valid encodings, in body_len and the header field array, arrays that really hold 2^26 and 2^26+1/+8 bytes; (4) random bytes under random valid signatures, random values with bit flips, 20-80 KB values; (5) typed gets under mutated signatures (shorter / longer / reordered structs, other element types), derived structs and enums against a pool of signatures, has_sig of every type against the pool; Cow<[E]>/Vec<E>/&[u8] for 9 element types x offsets 0..7 x lengths that are and are not multiples of the element size; raw messages (valid, every corruption of the header, invalid signature strings in the SIGNATURE field, random header fields). Every case runs in two worker processes (release build; relcheck build = debug assertions + overflow checks, std's unsafe precondition checks abort), on a 2 MiB stack under catch_unwind, at all 8 alignments of the buffer, both byte orders by generation. Entry points: validate_marshalled, unmarshal_with_sig, Unmarshal::unmarshal of every table type with the signature (326 catalogue types + 38 borrowed / derived / macro types), MarshalledMessageBody::validate, parser().get_param loop, get::<T> for all 364 types, get2 (64 pairs), get3 (40 triples), Variant::get, unmarshall_all, sigs_left / get_next_sig, has_sig, unmarshal_header + unmarshal_dynamic_header + unmarshal_next_message. Violation: worker death (signal), hang (no answer in 30 s), caught panic, result differing between alignments or builds, decoders disagreeing on accept/consumed, peak live bytes or largest single allocation of one call above 64 KiB + K x input length with K = {} for validating calls, {} for typed / header calls, {} for calls that build a Param tree, one call longer than 5 s + 1 us/byte. c04.dec / c04.body / c04.slice observations are compared with the Lean model; distinct by request text",
+        "inputs: (1) every catalogue type's generated value encoded by an independent encoder + single-byte corruptions (0x00, 0xff, +1, random; all positions (up to 500 per value) for one value of every type in the thorough tier, a random subset of 24-32 otherwise) + truncations; (2) nesting bombs: towers of variants / arrays / structs / dict entries in 13 patterns to depth 10..130 around the limits 32 and 64, the same inside a{{sv}}, in a message body and in an unknown header field, 255-character variant signatures, generated towers of 10^3..10^6 levels (crash-only); (3) declared lengths 2^26, 2^26+1, 2^26+8, 2^31, 2^32-1, 2^32-8, remaining+1, remaining in every length field of valid encodings, in body_len and the header field array, arrays that really hold 2^26 and 2^26+1/+8 bytes; (4) random bytes under random valid signatures, random values with bit flips, 20-80 KB values; (5) typed gets under mutated signatures (shorter / longer / reordered structs, other element types), derived structs and enums against a pool of signatures, has_sig of every type against the pool; Cow<[E]>/Vec<E>/&[u8] for 9 element types x offsets 0..7 x lengths that are and are not multiples of the element size; raw messages (valid, every string-like header field holding boundary strings such as the empty string or a lone separator, every corruption of the header, invalid signature strings in the SIGNATURE field, random header fields). Every case runs in two worker processes (release build; relcheck build = debug assertions + overflow checks, std's unsafe precondition checks abort), on a 2 MiB stack under catch_unwind, at all 8 alignments of the buffer, both byte orders by generation. Entry points: validate_marshalled, unmarshal_with_sig, Unmarshal::unmarshal of every table type with the signature (326 catalogue types + 38 borrowed / derived / macro types), MarshalledMessageBody::validate, parser().get_param loop, get::<T> for all 364 types, get2 (64 pairs), get3 (40 triples), Variant::get, unmarshall_all, sigs_left / get_next_sig, has_sig, unmarshal_header + unmarshal_dynamic_header + unmarshal_next_message. Violation: worker death (signal), hang (no answer in 30 s), caught panic, result differing between alignments or builds, decoders disagreeing on accept/consumed, peak live bytes or largest single allocation of one call above 64 KiB + K x input length with K = {} for validating calls, {} for typed / header calls, {} for calls that build a Param tree, one call longer than 5 s + 1 us/byte. c04.dec / c04.body / c04.slice observations are compared with the Lean model; distinct by request text",
         ALLOC_K[0], ALLOC_K[1], ALLOC_K[2]
     )
 }
